@@ -2,6 +2,7 @@ package dtls
 
 //symgo:pkg github.com/pion/dtls/v3
 //symgo:param NDGRAM quick=20 thorough=30
+//symgo:param NJUNK quick=16 thorough=24
 //symgo:stub crypto/rand.Reader is a fake returning fresh symbolic bytes; nextConn is a fake that accepts every write
 //symgo:stub CipherSuite / RecordProtection13 are harness fakes returning an arbitrary verdict and (for an authenticated peer) the record bytes as plaintext, so malformed-but-authentic content reaches the content parsers
 //symgo:outside deadlocks across goroutines, heap growth measured at run time; datagrams longer than NDGRAM bytes
@@ -17,6 +18,7 @@ import (
 	"github.com/pion/dtls/v3/internal/closer"
 	dtlsflight "github.com/pion/dtls/v3/internal/flight"
 	dtlsfragmentbuffer "github.com/pion/dtls/v3/internal/fragmentbuffer"
+	dtlshandshake "github.com/pion/dtls/v3/internal/handshake"
 	dtlsstate "github.com/pion/dtls/v3/internal/state"
 	"github.com/pion/dtls/v3/pkg/crypto/clientcertificate"
 	"github.com/pion/dtls/v3/pkg/protocol"
@@ -72,10 +74,16 @@ func (zzRand8) Read(p []byte) (int, error) {
 	return len(p), nil
 }
 
-type zzNet8 struct{ writes int }
+type zzNet8 struct {
+	writes   int
+	incoming []byte
+}
 
-func (n *zzNet8) ReadFromContext(context.Context, []byte) (int, net.Addr, error) {
-	return 0, nil, zzErrAuth8
+func (n *zzNet8) ReadFromContext(_ context.Context, b []byte) (int, net.Addr, error) {
+	if n.incoming == nil {
+		return 0, nil, zzErrAuth8
+	}
+	return copy(b, n.incoming), &net.UDPAddr{Port: 2}, nil
 }
 func (n *zzNet8) WriteToContext(_ context.Context, b []byte, _ net.Addr) (int, error) {
 	n.writes++
@@ -175,4 +183,53 @@ func zzRxDatagramNoPanic() {
 		}
 	}
 	zzsymAssert(len(c.encryptedPackets) <= maxAppDataPacketQueueSize, "queue_within_cap")
+}
+
+// "Datagrams that cannot be parsed as DTLS records are dropped, and the endpoint keeps serving": an arbitrary
+// datagram of every length 1..NJUNK that Conn.unpackDatagram rejects must be classified by the read loop as "discard
+// and continue" in every endpoint state (before the handshake has completed the alternative is that the read loop stops
+// and the handshake dies; afterwards that an error is handed to the application's Read) - for the legacy and the DTLS
+// 1.3 splitters alike.
+//
+//symgo:entry covers=junk_rejected,junk_pre_handshake,junk_established
+func zzRxJunkDatagramDropped() {
+	state := zzsymChoice("state", 5)
+	var c *Conn
+	switch state {
+	case 0, 1:
+		c = zzConn8(nil, state == 0)
+	case 2:
+		c = zzConn8(&zzSuite8{init: true}, false)
+		dtlsstate.CommonState(c.state).LocalVersion = protocol.Version1_2
+	case 3:
+		c = zzConn8(&zzSuite8{init: true}, true)
+		common := dtlsstate.CommonState(c.state)
+		common.LocalVersion = protocol.Version1_2
+		common.SetLocalConnectionID(zzsymBytes("lcid", 2))
+	case 4:
+		c = zzConn8(&zzSuite8{}, false)
+		st := dtlsstate.Activate13(c.state)
+		c.state = st
+		st.LocalVersion = protocol.Version1_3
+	}
+	c.handshakeEstablished = dtlshandshake.NewEstablishment()
+	established := zzsymChoice("established", 2) == 1
+	if established {
+		dtlshandshake.ZZMarkEstablished(c.handshakeEstablished)
+		zzsymCover("junk_established")
+	} else {
+		zzsymCover("junk_pre_handshake")
+	}
+	n := 1 + zzsymChoice("len", zzsymParam("NJUNK"))
+	dgram := zzsymBytes("dg", n)
+	_, uerr := c.unpackDatagram(append([]byte{}, dgram...))
+	if uerr == nil {
+		return
+	}
+	zzsymCover("junk_rejected")
+	// the read loop's step on that datagram: either nothing is reported, or what is reported makes the loop continue
+	c.nextConn.(*zzNet8).incoming = dgram
+	_, err := c.readAndProcessDatagram(context.Background())
+	zzsymAssert(err == nil || c.classifyReadLoopError(err) == readLoopContinue, "unparseable_datagram_is_silently_discarded")
+	zzsymAssert(len(c.decrypted) == 0 && c.nextConn.(*zzNet8).writes == 0, "unparseable_datagram_has_no_effect")
 }
